@@ -1,6 +1,7 @@
 package main
 
 import (
+	"sync/atomic"
 	"bytes"
 	"context"
 	"fmt"
@@ -90,8 +91,18 @@ func runSolver(ctx context.Context, sd solverDef, query string, timeoutSec, seed
 var procSem = make(chan struct{}, 16)
 
 // discharge races the solvers on one obligation.
+// dischargeDeadline bounds the wall-clock time one check spends in the solvers (set by runCheck). An obligation not
+// attempted before it is left open with solver "budget": undecided, never a violation.
+var dischargeDeadline time.Time
+
+func pastDeadline() bool { return !dischargeDeadline.IsZero() && time.Now().After(dischargeDeadline) }
+
 func discharge(o *Obligation, timeoutSec int, seed int, wantModel bool) {
 	if o.Trivial {
+		return
+	}
+	if pastDeadline() {
+		o.Result, o.Solver = "timeout", "budget"
 		return
 	}
 	if o.SplitBits > 0 {
@@ -203,18 +214,46 @@ func dischargeSplit(o *Obligation, timeoutSec, seed int) {
 	out := make(chan res, n)
 	var wg sync.WaitGroup
 	t0 := time.Now()
+	// once a handful of cases could not be discharged the obligation is open whatever the others say: the remaining
+	// cases are skipped (512 cases that each exhaust their budget would otherwise take an hour)
+	var open, budget int32
+	const enough = 3
 	for v := 0; v < n; v++ {
 		wg.Add(1)
 		go func(v int) {
 			defer wg.Done()
+			if atomic.LoadInt32(&open) >= enough {
+				return
+			}
+			if pastDeadline() {
+				atomic.StoreInt32(&budget, 1)
+				return
+			}
 			c := *o
 			c.splitVal = v
 			q := c.Query(false)
 			procSem <- struct{}{}
+			if atomic.LoadInt32(&open) >= enough {
+				<-procSem
+				return
+			}
+			if pastDeadline() {
+				<-procSem
+				atomic.StoreInt32(&budget, 1)
+				return
+			}
 			so := runSolver(context.Background(), solvers[0], q, timeoutSec, seed)
 			<-procSem
+			defer func() {
+				if so.status != "unsat" {
+					atomic.AddInt32(&open, 1)
+				}
+			}()
 			if so.status != "unsat" {
 				for _, sd := range solvers[1:] {
+					if atomic.LoadInt32(&open) >= enough {
+						break
+					}
 					procSem <- struct{}{}
 					s2 := runSolver(context.Background(), sd, q, timeoutSec, seed)
 					<-procSem
@@ -245,6 +284,9 @@ func dischargeSplit(o *Obligation, timeoutSec, seed int) {
 			}
 			o.FailedCases++
 		}
+	}
+	if o.Result == "unsat" && atomic.LoadInt32(&budget) != 0 {
+		o.Result, o.Solver = "timeout", "budget"
 	}
 	o.Ms = time.Since(t0).Milliseconds()
 }
